@@ -15,6 +15,7 @@ from .. import symx
 from ..symx import explore, Violation, PathAbort, SymReal, SymInt, SymBool, Inconclusive
 
 KINDS = ['func', 'stream', 'pattern', 'chanlist', 'operand', 'rest']
+INVAL = 0.25       # input value handed to every stream's next()
 
 DUNDER = {
     '__neg__': (operator.neg, 1, False), '__pos__': (operator.pos, 1, False), '__abs__': (operator.abs, 1, False),
@@ -104,7 +105,8 @@ def make(kind, vals, M):
         return M['fn'].function(lambda: v)
     if kind == 'stream':
         v = vals[0]
-        return M['stm'].FunctionStream(lambda: v)
+        # the value depends on the input value handed to next(): every operand stream must receive it
+        return M['stm'].FunctionStream(lambda inval: v + inval)
     if kind == 'pattern':
         return M['lsp'].Pseq(list(vals))
     if kind == 'chanlist':
@@ -150,7 +152,7 @@ def ev(obj, M, depth=0):
                 return ('seq', emb)
         return ('seq', out)
     if isinstance(obj, M['stm'].Stream):
-        return ev(obj.next(), M, depth + 1)
+        return ev(obj.next(INVAL), M, depth + 1)
     if isinstance(obj, (list, tuple)):
         return ('list', type(obj).__name__, [ev(x, M, depth + 1) for x in obj])
     if callable(obj):
@@ -160,7 +162,9 @@ def ev(obj, M, depth=0):
 
 def kinds_leaves(kind, vals):
     """evaluated structure of an operand built by make()"""
-    if kind in ('number', 'func', 'stream'):
+    if kind == 'stream':
+        return vals[0] + INVAL
+    if kind in ('number', 'func'):
         return vals[0]
     if kind == 'pattern':
         return ('seq', list(vals))
@@ -299,6 +303,8 @@ def run_case(ctx, M, spec, concrete):
     """spec: dict(form='method'|'builtin'|'rbuiltin', name, n, kinds=[...], typ)"""
     sbi = M['sbi']
     name, n, kinds, typ = spec['name'], spec['n'], spec['kinds'], spec['typ']
+    global INVAL
+    INVAL = 2 if typ == 'int' else 0.25
     lens = [ctx.choose(f'len{i}', 3) + 1 if k in ('pattern', 'chanlist') else 1 for i, k in enumerate(kinds)]
     leaves = [[leaf(ctx, f'v{i}_{j}', concrete, typ, i * 3 + j) for j in range(lens[i])] for i in range(n)]
     structs = [kinds_leaves(k, lv) for k, lv in zip(kinds, leaves)]
@@ -322,7 +328,18 @@ def run_case(ctx, M, spec, concrete):
     return {'spec': spec, 'lens': lens}
 
 
+def _round1(a):
+    """the one-argument builtin round(): on a composed object it goes through __round__ (default quantum), on a plain
+    number the reference is rounding to the quantum 1"""
+    if isinstance(a, (int, float, SymReal, SymInt)):
+        from sc3.base import builtins as sbi_
+        return sbi_.round(a, 1)
+    return round(a)
+
+
 def op_py(name):
+    if name == 'round1':
+        return _round1
     return {'add': operator.add, 'sub': operator.sub, 'mul': operator.mul, 'truediv': operator.truediv,
             'floordiv': operator.floordiv, 'pow': operator.pow, 'lt': operator.lt, 'le': operator.le,
             'gt': operator.gt, 'ge': operator.ge, 'neg': operator.neg, 'abs': operator.abs}[name]
@@ -391,6 +408,8 @@ def jobs(tier):
                 out.append(dict(form='builtin', name=name, n=2, kinds=['number', k], typ=typ))
             if npar >= 3 and k == 'pattern':
                 out.append(dict(form='builtin', name=name, n=npar, kinds=[k] * 3 + ['number'] * (npar - 3), typ=typ))
+    for k in kinds:
+        out.append(dict(form='pyop', name='round1', n=1, kinds=[k], typ='real'))
     # python operators with a plain number on the left (reflected dunders through the interpreter)
     for name in ('add', 'sub', 'mul', 'truediv', 'floordiv', 'pow', 'lt', 'le', 'gt', 'ge'):
         for k in kinds:
